@@ -118,3 +118,93 @@ func vNewAssocOpts(o vAssocOpts) (*Association, *vConn) {
 }
 
 func vNewAssoc() (*Association, *vConn) { return vNewAssocOpts(vAssocOpts{}) }
+
+// ---- two associations wired back to back (loss-free unless a harness drops packets)
+
+type vClosedCtx struct{ ch chan struct{} }
+
+func vNewClosedCtx() *vClosedCtx {
+	c := &vClosedCtx{ch: make(chan struct{})}
+	close(c.ch)
+	return c
+}
+
+type vCtxErr struct{}
+
+func (vCtxErr) Error() string { return "vctx: done" }
+
+func (c *vClosedCtx) Deadline() (time.Time, bool) { return time.Time{}, false }
+func (c *vClosedCtx) Done() <-chan struct{}       { return c.ch }
+func (c *vClosedCtx) Err() error                  { return vCtxErr{} }
+func (c *vClosedCtx) Value(any) any               { return nil }
+
+// vPair returns two established associations that are each other's peer.
+func vPair(o vAssocOpts) (*Association, *Association) {
+	a, _ := vNewAssocOpts(o)
+	b, _ := vNewAssocOpts(o)
+	a.peerVerificationTag, b.peerVerificationTag = b.myVerificationTag, a.myVerificationTag
+	a.payloadQueue.init(b.myNextTSN - 1)
+	b.payloadQueue.init(a.myNextTSN - 1)
+	a.sourcePort, a.destinationPort = 5000, 5001
+	b.sourcePort, b.destinationPort = 5001, 5000
+	a.cwnd, a.rwnd, b.cwnd, b.rwnd = 1<<20, 1<<20, 1<<20, 1<<20
+	return a, b
+}
+
+// vWriterPass is one iteration of writeLoop without the transport: gather, and close
+// the association when the gathered packets were terminal.
+func vWriterPass(a *Association) [][]byte {
+	if a.getState() == closed {
+		return nil
+	}
+	pkts, ok := a.gatherOutbound()
+	if !ok {
+		_ = a.close()
+	}
+	return pkts
+}
+
+func vDecode(raw []byte) *packet {
+	p := &packet{}
+	if err := p.unmarshal(false, raw); err != nil {
+		vassert(false, "every emitted packet decodes locally")
+		return nil
+	}
+	return p
+}
+
+// vFireAck lets a pending delayed-ack timer expire.
+func vFireAck(a *Association) {
+	if a.getState() != closed && a.ackTimer.timer.Stop() {
+		a.ackTimer.timeout()
+	}
+}
+
+// vInbound is one iteration of readLoop for one packet; a fatal error closes like readLoop does.
+func vInbound(a *Association, raw []byte) {
+	if a.getState() == closed {
+		return
+	}
+	if err := a.handleInbound(raw); err != nil {
+		_ = a.close()
+	}
+}
+
+// vFireRtx lets an armed retransmission timer expire (runtime timer fires, callback runs).
+func vFireRtx(a *Association, t *rtxTimer) bool {
+	if a.getState() != closed && t.timer.Stop() {
+		t.timeout()
+		return true
+	}
+	return false
+}
+
+// vFireAll expires every armed protocol timer of a once.
+func vFireAll(a *Association) {
+	vFireAck(a)
+	vFireRtx(a, a.t3RTX)
+	vFireRtx(a, a.t2Shutdown)
+	vFireRtx(a, a.tReconfig)
+	vFireRtx(a, a.t1Init)
+	vFireRtx(a, a.t1Cookie)
+}
